@@ -3,6 +3,7 @@ INIT TInit
 NEXT TNext
 CONSTANTS
   MaxCount = 3
+  MaxCountLater = 3
 INVARIANT Conservation
 INVARIANT BatchBounds
 INVARIANT ExactlyOnceAtRest
